@@ -9,6 +9,7 @@ import VsbModel.Model.Verify
 import VsbModel.Model.Filter
 import VsbModel.Model.Walk
 import VsbModel.Model.Config
+import VsbModel.Model.FileReader
 
 /-!
 Line-protocol driver for the executable models: one request per line `<op> <json>`, one JSON
@@ -459,6 +460,15 @@ def opCfgpath (j : Json) : Except String Json := do
   | some r => pure (Json.str r)
   | none => pure Json.null
 
+/-! ## filereader -/
+open Vsb.FileReader in
+def opFileReader (j : Json) : Except String Json := do
+  let src ← (← (← j.getObjVal? "src").getArr?).toList.mapM natList
+  let size ← (← j.getObjVal? "size").getNat?
+  let bufs ← natList (← j.getObjVal? "bufs")
+  let (out, n, hashed) := readFile (0 : Nat) src size bufs
+  pure (Json.mkObj [("out", natsJson out), ("bytes_read", n), ("hashed", natsJson hashed)])
+
 def dispatch (op : String) (j : Json) : Except String Json :=
   match op with
   | "split" => opSplit j
@@ -470,6 +480,7 @@ def dispatch (op : String) (j : Json) : Except String Json :=
   | "dedup" => opDedup j
   | "filter" => opFilter j
   | "walk" => opWalk j
+  | "filereader" => opFileReader j
   | "cfgload" => opCfgload j
   | "cfgpath" => opCfgpath j
   | "verify" => opVerify j
